@@ -269,6 +269,11 @@ func propSetTimeRangeSeq(args []string) string {
 		vars = condVars(orig)
 	}
 	assignments := condAssignments(vars)
+	// the parentheses SetTimeRange puts around an OR at the top of the rewritten condition are one node
+	sizeSlack := 8
+	if orig != nil && rewrittenTopIsOr(orig) {
+		sizeSlack = 9
+	}
 	firstSize := 0
 	for i, w := range ws {
 		if w.start <= influxql.MinTime || w.end > influxql.MaxTime || w.start >= w.end {
@@ -336,7 +341,7 @@ func propSetTimeRangeSeq(args []string) string {
 		sz := exprSize(c)
 		if i == 0 {
 			firstSize = sz
-			if sz > origSize+8 {
+			if sz > origSize+sizeSlack {
 				return fmt.Sprintf("size: call 1 on %q grows the condition from %d to %d nodes: %q", text, origSize, sz, c.String())
 			}
 		} else if sz > firstSize {
@@ -344,6 +349,19 @@ func propSetTimeRangeSeq(args []string) string {
 		}
 	}
 	return ""
+}
+
+// rewrittenTopIsOr: the condition, with its time comparisons replaced by true as
+// rewriteWithoutTimeDimensions does, has an OR at the top.
+func rewrittenTopIsOr(cond influxql.Expr) bool {
+	rew := influxql.RewriteFunc(influxql.CloneExpr(cond), func(n influxql.Node) influxql.Node {
+		if be, ok := n.(*influxql.BinaryExpr); ok && (isTimeVarRef(be.LHS) || isTimeVarRef(be.RHS)) {
+			return &influxql.BooleanLiteral{Val: true}
+		}
+		return n
+	})
+	be, ok := rew.(*influxql.BinaryExpr)
+	return ok && be.Op == influxql.OR
 }
 
 // knownSetTimeRangeSeq classifies failing cases by what the original condition contains.
@@ -359,15 +377,12 @@ func knownSetTimeRangeSeq(args []string) string {
 	// (Before the fixes 51161c4 / 86fc254 of /repo there were two more classes: bounds not written
 	// `time <op> x` survived, and every call became true. They are repaired; a failure of that
 	// kind is no longer excused.)
-	// An OR at the top of the rewritten condition captures the window: the class applies only when
-	// the same condition in parentheses passes, i.e. the missing parentheses are the cause.
-	rew := influxql.RewriteFunc(influxql.CloneExpr(cond), func(n influxql.Node) influxql.Node {
-		if be, ok := n.(*influxql.BinaryExpr); ok && (isTimeVarRef(be.LHS) || isTimeVarRef(be.RHS)) {
-			return &influxql.BooleanLiteral{Val: true}
-		}
-		return n
-	})
-	if be, ok := rew.(*influxql.BinaryExpr); ok && be.Op == influxql.OR {
+	// An OR at the top of the rewritten condition captured the window (`a OR b AND <window>`) until
+	// rewriteWithoutTimeDimensions began to parenthesise it. The finding is recorded as fixed, so this
+	// class excuses nothing any more; it is kept to name the regression should the parentheses get
+	// lost again: it applies only when the same condition in parentheses passes, i.e. the missing
+	// parentheses are the cause.
+	if rewrittenTopIsOr(cond) {
 		text, _ := decStr(args[0])
 		wrapped := append([]string{encStr("(" + text + ")")}, args[1:]...)
 		if len(wrapped) > 2 {
@@ -380,6 +395,28 @@ func knownSetTimeRangeSeq(args []string) string {
 	// the condition itself does not survive print -> parse (printing defects recorded under C02/C03)
 	if re, err := parseExprWith(cond.String(), nil); err != nil || !exprEqual(re, cond) {
 		return "C18-condition-does-not-reparse"
+	}
+	// Reduce at the end of a call folded constant arithmetic of a predicate to a *TimeLiteral
+	// (`7 - 0s`, `'2000-01-01' - 0`); a time literal prints as a quoted string and the next call
+	// reads it back as a *StringLiteral: the predicate is a different one from then on.
+	if _, _, _, ws, bad := strParse(args); !bad {
+		stmt := &influxql.SelectStatement{Condition: influxql.CloneExpr(cond)}
+		for _, w := range ws {
+			if err := stmt.SetTimeRange(time.Unix(0, w.start).UTC(), time.Unix(0, w.end).UTC()); err != nil {
+				break
+			}
+			hasTime := false
+			influxql.WalkFunc(stmt.Condition, func(n influxql.Node) {
+				if _, ok := n.(*influxql.TimeLiteral); ok {
+					hasTime = true
+				}
+			})
+			if hasTime {
+				if re, err := parseExprWith(stmt.Condition.String(), nil); err == nil && !exprEqual(re, stmt.Condition) {
+					return "C18-folded-time-literal-comes-back-as-string"
+				}
+			}
+		}
 	}
 	return ""
 }
@@ -447,6 +484,38 @@ func randSTRCond(r *rand.Rand, depth int, timeOK bool) string {
 	}
 }
 
+// randTopOr: an OR at the top (the shape SetTimeRange has to parenthesise): 2-4 disjuncts, plain,
+// parenthesised or nested ORs, conjunctions with or without time bounds inside the disjuncts, time
+// in any letter case.
+func randTopOr(r *rand.Rand) string {
+	n := 2 + r.Intn(3)
+	timeInside := r.Intn(3) == 0
+	parts := make([]string, n)
+	for i := range parts {
+		switch r.Intn(6) {
+		case 0:
+			parts[i] = "(" + randSTRCond(r, 1, false) + " OR " + randSTRCond(r, 1, false) + ")"
+		case 1:
+			parts[i] = randSTRCond(r, 1+r.Intn(2), timeInside) + " AND " + randSTRCond(r, 1, timeInside)
+		case 2:
+			parts[i] = "(" + randSTRCond(r, 1+r.Intn(2), timeInside) + ")"
+		case 3:
+			if timeInside {
+				parts[i] = randSTRCond(r, 0, false) + " AND " + randTimeName(r) + " " + pick(r, []string{">", ">=", "<", "<="}) + " " + randTimeOperand(r, true)
+				break
+			}
+			fallthrough
+		default:
+			parts[i] = randSTRCond(r, 0, false)
+		}
+	}
+	text := strings.Join(parts, " OR ")
+	if r.Intn(8) == 0 { // the whole OR next to a bound: the OR is not at the top of the tree, AND binds tighter
+		text += " AND " + randTimeName(r) + " > " + randTimeOperand(r, true)
+	}
+	return text
+}
+
 func genSetTimeRangeSeq(r *rand.Rand, n int, emit func(args ...string)) {
 	w3 := []window{{1000000000000, 1060000000000}, {1060000000000, 1120000000000}, {1120000000000, 1180000000000}}
 	corpus := []string{
@@ -457,6 +526,15 @@ func genSetTimeRangeSeq(r *rand.Rand, n int, emit func(args ...string)) {
 		"host = 'time'", "'time' = host", "\"time\" > 5", "(time > 5)", "((time > 5 AND host = 'a'))", "(time > 5) AND (host = 'a')", "host =~ /a/ AND time > 5", "host !~ /a\\/b/",
 		"b / -a > 1 AND time > 5", "-a > 1", "n % -a > 1", "host = 'a' AND", "time >", "\"a b\" = 1 AND time > 5", "value > 1.5", "value > -1.5 AND time >= '2000-01-01'", "n = 10s AND time > 5",
 		"time = 5", "time > 5 AND time > 5 AND time > 5", "time > 'abc'", "time > '2300-01-01'", "time != 5", "time =~ /x/", "time > 5 AND region != 'it\\'s'",
+		// an OR at the top (parenthesised by SetTimeRange): 2-4 disjuncts, nested, with and without time bounds inside
+		"host = 'a' OR host = 'b' OR host = 'c'", "host = 'a' OR host = 'b' OR region = 'x' OR value > 1", "host = 'a' OR (host = 'b' OR region = 'x')",
+		"(host = 'a' OR host = 'b') OR region = 'x'", "(host = 'a') OR (host = 'b')", "host = 'a' AND region = 'x' OR host = 'b'", "host = 'a' OR host = 'b' AND region = 'x'",
+		"host = 'a' AND time > 5 OR host = 'b' AND TIME < 10", "(host = 'a' AND Time >= '2000-01-01T00:00:00Z') OR (host = 'b' AND '2001-01-01T00:00:00Z' > time)",
+		"host = 'a' OR host = 'b' AND time > now() - 1h", "host = 'a' AND tImE > now() - 1h OR host = 'b' AND tImE > now() - 2h OR host = 'c'",
+		"host = 'a' OR false", "false OR host = 'a'", "true OR host = 'a'", "host = 'a' OR true", "false OR false", "time > 5 OR time < 3", "host =~ /a/ OR host !~ /b|c/",
+		"value > abs(n) OR host = 'a'", "host = 'a' OR host = 'b' OR (region = 'x' AND (value > 1 OR n < 2))", "((host = 'a' OR host = 'b'))", "time OR host = 'a'",
+		// constant arithmetic that Reduce folds to a time literal (printed as a string on the next call: open finding)
+		"7 - 0s <> b", "\"\" != '2000-01-01' - 0", "host = 'a' AND '2000-01-01T00:00:00Z' + 1h > b AND time > 5",
 	}
 	for _, s := range corpus {
 		emit(encStr(s), encWindows(w3), encLower(s))
@@ -473,6 +551,8 @@ func genSetTimeRangeSeq(r *rand.Rand, n int, emit func(args ...string)) {
 			text = randCond(r, 1+r.Intn(3), true, true)
 		case 8:
 			text = ""
+		case 9, 10:
+			text = randTopOr(r)
 		default:
 			text = randSTRCond(r, 1+r.Intn(4), true)
 		}
@@ -488,7 +568,15 @@ func init() {
 				if strings.Contains(out, "set-error") {
 					return "set-error"
 				}
-				return fmt.Sprintf("ok-%d-calls", strings.Count(out, " | "))
+				orTop := ""
+				if len(args) > 0 {
+					if text, err := decStr(args[0]); err == nil && strings.Trim(text, " ") != "" {
+						if cond, err := parseExprWith(text, nil); err == nil && rewrittenTopIsOr(cond) {
+							orTop = ",or-at-top"
+						}
+					}
+				}
+				return fmt.Sprintf("ok-%d-calls%s", strings.Count(out, " | "), orTop)
 			case strings.HasPrefix(out, "skip"):
 				return strings.Fields(out)[0]
 			case strings.HasPrefix(out, "parse-error"):
